@@ -60,7 +60,7 @@ theorem fq_fq (m : Message) : m.fq.fq = m.fq := by
 with their case, root octet) — no pointer, whatever the candidate table holds. -/
 theorem emitName_uncompressed (e e' : Enc) (n : Name) (hwf : n.WF) (happ : e.offset = e.buf.length)
     (hmode : e.nameEncoding = .uncompressed) (h : Name.emit e n = .ok () e') :
-    e'.buf = e.buf ++ Name.wire n := by
+    e'.buf = e.buf ++ Name.wire n ∧ e'.offset = e'.buf.length := by
   have hlab : LabelsOK n.labels := fun l hl => by have := hwf.2 l hl; omega
   unfold Name.emit at h
   simp only [hmode, reduceCtorEq, ↓reduceIte, decide_false, Bool.false_and, Bool.false_eq_true] at h
@@ -95,7 +95,8 @@ theorem emitName_uncompressed (e e' : Enc) (n : Name) (hwf : n.WF) (happ : e.off
           · simp at h
           simp only [ERes.ok.injEq, true_and] at h
           rw [← h]
-          simp only [hm2.buf, Name.wire, flat, List.append_assoc]
+          refine ⟨by simp only [hm2.buf, Name.wire, flat, List.append_assoc], ?_⟩
+          simp [hm2.off]
 
 /-- the uncompressed wire form of the covered RDATA variants whose names are not compressible
 (`with_rdata_behavior(Canonical | Other)`), and of the name-free ones -/
@@ -127,7 +128,7 @@ theorem rdata_preserved_partial (t : Nat) (d : RData) (e e' : Enc)
       | .name n => n.WF ∧ t = 65305
       | _ => False)
     (happ : e.offset = e.buf.length) (hcanon : e.canonicalForm = false)
-    (h : emitRData t d e = .ok () e') : e'.buf = e.buf ++ rdataWire d := by
+    (h : emitRData t d e = .ok () e') : e'.buf = e.buf ++ rdataWire d ∧ e'.offset = e'.buf.length := by
   have slice : ∀ (x : Bytes) (e0 e1 : Enc), e0.offset = e0.buf.length → e0.emitSlice x = .ok () e1 →
       e1.buf = e0.buf ++ x ∧ e1.offset = e1.buf.length ∧ e1.nameEncoding = e0.nameEncoding := by
     intro x e0 e1 ha hs
@@ -136,9 +137,9 @@ theorem rdata_preserved_partial (t : Nat) (d : RData) (e e' : Enc)
     · simp at hs
     · simp only [ERes.ok.injEq, true_and] at hs; subst hs; exact ⟨rfl, by simp [ha], rfl⟩
   cases d <;> first | (simp at hd; done) | skip
-  case a b => exact (slice b e e' happ h).1
-  case null b => exact (slice b e e' happ h).1
-  case unknown c b => exact (slice b e e' happ h).1
+  case a b => exact ⟨(slice b e e' happ h).1, (slice b e e' happ h).2.1⟩
+  case null b => exact ⟨(slice b e e' happ h).1, (slice b e e' happ h).2.1⟩
+  case unknown c b => exact ⟨(slice b e e' happ h).1, (slice b e e' happ h).2.1⟩
   case name n =>
     obtain ⟨hn, rfl⟩ := hd
     have hmode : Enc.rdataNameEncoding .other e.canonicalForm e.nameEncoding = .uncompressed := by
@@ -178,7 +179,8 @@ theorem rdata_preserved_partial (t : Nat) (d : RData) (e e' : Enc)
             simp only [Enc.restoreNameEncoding, ERes.ok.injEq, true_and] at h
             subst h
             have := emitName_uncompressed e3 e4 n hd a3 (by rw [n3, n2, n1, hnu]) h4
-            simp only [this, b3, b2, b1, hbu, rdataWire, u16b, List.append_assoc]
+            refine ⟨?_, this.2⟩
+            simp only [this.1, b3, b2, b1, hbu, rdataWire, u16b, List.append_assoc]
           | err k e4 => rw [h4] at h; simp [Enc.restoreNameEncoding] at h
           | panic s => rw [h4] at h; simp [Enc.restoreNameEncoding] at h
         | err k e3 => rw [h3] at h; simp [Enc.restoreNameEncoding] at h
